@@ -1,7 +1,7 @@
 from typing import Any, List, Union, overload
 
 from .array import BoolArray1D, BoolArray2D, IntArray1D, IntArray2D, _elementwise
-from .expr import BoolExpr, BoolExprLike, IntExpr, IntExprLike, Op
+from .expr import BoolExpr, BoolExprLike, IntExpr, IntExprLike, Op, _make_bool_expr, _make_int_expr
 
 
 def flatten_iterator(*args: Any) -> Any:
@@ -127,9 +127,15 @@ def cond(
     elif isinstance(f, (IntArray1D, IntArray2D)):
         shape = f.shape
     else:
-        return IntExpr(Op.IF, [c, t, f])
+        res = _make_int_expr(Op.IF, [c, t, f])
+        if res is NotImplemented:
+            raise TypeError("unsupported argument type(s) for 'cond'")
+        return res
 
-    return _elementwise(Op.IF, shape, [c, t, f])  # type: ignore
+    res2 = _elementwise(Op.IF, shape, [c, t, f])  # type: ignore
+    if res2 is NotImplemented:
+        raise TypeError("unsupported argument type(s) for 'cond'")
+    return res2
 
 
 @overload
@@ -161,6 +167,12 @@ def then(
     elif isinstance(y, (BoolArray1D, BoolArray2D)):
         shape = y.shape
     else:
-        return BoolExpr(Op.IMP, [x, y])
+        res = _make_bool_expr(Op.IMP, [x, y])
+        if res is NotImplemented:
+            raise TypeError("unsupported argument type(s) for 'then'")
+        return res
 
-    return _elementwise(Op.IMP, shape, [x, y])  # type: ignore
+    res2 = _elementwise(Op.IMP, shape, [x, y])  # type: ignore
+    if res2 is NotImplemented:
+        raise TypeError("unsupported argument type(s) for 'then'")
+    return res2
